@@ -9,14 +9,22 @@ namespace Tickit
 names the original component and carries the original error — through any nesting depth. -/
 theorem identity_preserved (cfg : List Tree) (target : Comp) (err : String) (r : Report)
     (h : failIn "" cfg target err = some r) : r.exc = ⟨target, err⟩ := by
-  sorry
+  rw [failIn_eq] at h
+  cases hc : findChild cfg target err with
+  | none => rw [hc] at h; cases h
+  | some r' =>
+    rw [hc] at h; cases h
+    exact findChild_exc target err cfg r' hc
 
 /-- **the error reaches the top-level scheduler** whenever the failing device exists anywhere
 in the configuration, at any depth. -/
 theorem reaches_master (cfg : List Tree) (target : Comp) (err : String)
     (ht : target ∈ devicesOf cfg) :
     ∃ r, failIn "" cfg target err = some r ∧ "" ∈ r.errored ∧ r.errored.getLast? = some "" := by
-  sorry
+  rw [failIn_eq]
+  cases hc : findChild cfg target err with
+  | none => exact absurd ht ((findChild_none_iff target err cfg).mp hc)
+  | some r' => exact ⟨_, rfl, by simp, by simp⟩
 
 /-- **every component on the way is told to stop**: for every scheduler on the path from the
 master down to the failing device, every component it manages was sent `StopComponent`, and
@@ -25,22 +33,40 @@ theorem all_on_path_stopped (cfg : List Tree) (target : Comp) (err : String) (r 
     (h : failIn "" cfg target err = some r) :
     (∀ t ∈ cfg, t.name ∈ r.stopped) ∧
     (∃ p, pathTo "" cfg target = some p ∧ ∀ lvl ∈ p, lvl.1 ∈ r.errored ∧ ∀ c ∈ lvl.2, c ∈ r.stopped) := by
-  sorry
+  rw [failIn_eq] at h
+  rw [pathTo_eq]
+  cases hc : findChild cfg target err with
+  | none => rw [hc] at h; cases h
+  | some r' =>
+    rw [hc] at h; cases h
+    obtain ⟨p, hp, hall⟩ := findChild_path target err cfg r' hc
+    refine ⟨fun t ht => List.mem_append_right _ (List.mem_map.mpr ⟨t, ht, rfl⟩), ?_⟩
+    refine ⟨p ++ [("", cfg.map Tree.name)], by rw [hp]; rfl, ?_⟩
+    intro lvl hl
+    rcases List.mem_append.mp hl with hl | hl
+    · obtain ⟨h1, h2⟩ := hall lvl hl
+      exact ⟨List.mem_append_left _ h1, fun c hc' => List.mem_append_left _ (h2 c hc')⟩
+    · simp only [List.mem_singleton] at hl
+      subst hl
+      exact ⟨by simp, fun c hc' => List.mem_append_right _ hc'⟩
 
 /-- nothing is reported for a component that does not exist -/
 theorem no_report_for_unknown (cfg : List Tree) (target : Comp) (err : String)
     (ht : target ∉ devicesOf cfg) : failIn "" cfg target err = none := by
-  sorry
+  rw [failIn_eq, (findChild_none_iff target err cfg).mpr ht]; rfl
 
 /-- once the master's error flag is up no further tick is started, whatever is still due. -/
 theorem no_tick_after_error (budget : Nat) : masterTicksAfterError true budget = 0 := by
-  sorry
+  simp [masterTicksAfterError]
 
 def exCfg : List Tree :=
   [.dev "a", .sys "s1" [.dev "b", .sys "s2" [.dev "deep", .dev "d2"]], .dev "z"]
 
-example : (failIn "" exCfg "deep" "boom").map (·.exc) = some ⟨"deep", "boom"⟩ := by sorry
-example : (failIn "" exCfg "deep" "boom").map (·.errored) = some ["s2", "s1", ""] := by sorry
-example : (failIn "" exCfg "deep" "boom").map (·.stopped) = some ["deep", "d2", "b", "s2", "a", "s1", "z"] := by sorry
+example : (failIn "" exCfg "deep" "boom").map (·.exc) = some ⟨"deep", "boom"⟩ := by
+  simp [exCfg, failIn_eq, findChild_sys, findChild_dev]
+example : (failIn "" exCfg "deep" "boom").map (·.errored) = some ["s2", "s1", ""] := by
+  simp [exCfg, failIn_eq, findChild_sys, findChild_dev]
+example : (failIn "" exCfg "deep" "boom").map (·.stopped) = some ["deep", "d2", "b", "s2", "a", "s1", "z"] := by
+  simp [exCfg, failIn_eq, findChild_sys, findChild_dev, Tree.name]
 
 end Tickit
